@@ -418,9 +418,10 @@ def removeCols (t : Tbl) (names : List (List Char)) : Tbl :=
   { t with fmt := { t.fmt with cols := t.fmt.cols.filter fun c => !names.contains c.field.name } }
 
 /-- `table.fmt.set_limits((a, b))` on the live format object: both limits are replaced, the
-skipped-lines flag is forgotten (fix 3b63cdc), negotiated widths stay -/
+skipped-lines flag (fix 3b63cdc) and the negotiated widths (fix 1d22ea8) are forgotten -/
 def setLimits (t : Tbl) (a b : Option Int) : Tbl :=
-  { t with fmt := { t.fmt with limF := a, limL := b, anySkipped := Option.none } }
+  { t with fmt := { t.fmt with cols := t.fmt.cols.map fun c => { c with width := Option.none },
+                               limF := a, limL := b, anySkipped := Option.none } }
 
 /-- a column given as an object: `ReprColumn(field, fmt_modifier, break_by, min_width, max_width)` -/
 structure ColSpec where
